@@ -266,7 +266,7 @@ func (sf *obfs4ServerFactory) WrapConn(conn net.Conn) (net.Conn, error) {
 		iatDist = probdist.New(sf.iatSeed, 0, maxIATDelay, *biasedDist)
 	}
 
-	c := &obfs4Conn{conn, true, lenDist, iatDist, sf.iatMode, bytes.NewBuffer(nil), bytes.NewBuffer(nil), make([]byte, consumeReadSize), nil, nil}
+	c := &obfs4Conn{conn, true, lenDist, iatDist, sf.iatMode, bytes.NewBuffer(nil), bytes.NewBuffer(nil), make([]byte, consumeReadSize), nil, nil, nil}
 
 	startTime := time.Now()
 
@@ -293,6 +293,10 @@ type obfs4Conn struct {
 
 	encoder *framing.Encoder
 	decoder *framing.Decoder
+
+	// readErr is a fatal read error that is held back till the payload that
+	// was decoded before it has been handed over.
+	readErr error
 }
 
 func newObfs4ClientConn(conn net.Conn, args *obfs4ClientArgs) (*obfs4Conn, error) {
@@ -316,7 +320,7 @@ func newObfs4ClientConn(conn net.Conn, args *obfs4ClientArgs) (*obfs4Conn, error
 	}
 
 	// Allocate the client structure.
-	c := &obfs4Conn{conn, false, lenDist, iatDist, args.iatMode, bytes.NewBuffer(nil), bytes.NewBuffer(nil), make([]byte, consumeReadSize), nil, nil}
+	c := &obfs4Conn{conn, false, lenDist, iatDist, args.iatMode, bytes.NewBuffer(nil), bytes.NewBuffer(nil), make([]byte, consumeReadSize), nil, nil, nil}
 
 	// Start the handshake timeout.
 	deadline := time.Now().Add(clientHandshakeTimeout)
@@ -466,6 +470,10 @@ func (conn *obfs4Conn) Read(b []byte) (int, error) {
 	// so do this in a loop till data is present or an error occurs.
 	var err error
 	for conn.receiveDecodedBuffer.Len() == 0 {
+		if conn.readErr != nil {
+			// Everything decoded before the error has been handed over.
+			return 0, conn.readErr
+		}
 		err = conn.readPackets()
 		if errors.Is(err, framing.ErrAgain) {
 			// Don't proagate this back up the call stack if we happen to break
@@ -487,6 +495,10 @@ func (conn *obfs4Conn) Read(b []byte) (int, error) {
 			// Only propagate berr if there are not more important (fatal)
 			// errors from the network/crypto/packet processing.
 			err = berr
+		} else if conn.receiveDecodedBuffer.Len() > 0 {
+			// b was too small for all of the decoded data: report the error
+			// once the rest has been read, not with the first part.
+			conn.readErr, err = err, nil
 		}
 	}
 
